@@ -36,6 +36,7 @@ type Stats struct {
 	Paths, Completed               int
 	Asserts, AssertQueries         int
 	MaxFrontier                    int
+	StoppedAfterViolation          bool
 	IdenticalMerges                int
 	MergedReleases                 int
 }
@@ -127,6 +128,7 @@ type Engine struct {
 	Races           map[string]string
 	Reached         map[string]bool
 	snapCodec       string
+	AfterViolation  time.Duration // how long exploration goes on after the first violation was found
 	Timed           bool    // timed semantics for timers (see annotateTimed)
 	curAlt          FireAlt // the alternative being fired
 	Bounds          map[string]int // harness size parameters overriding the quick-tier defaults (vrt.Bound)
@@ -140,7 +142,7 @@ type Engine struct {
 
 func NewEngine(prog *ssa.Program, solver *smt.Solver) *Engine {
 	e := &Engine{prog: prog, Solver: solver, Log: os.Stderr, mu: &sync.Mutex{}, solverMu: &sync.Mutex{}, snaps: &sync.Map{}, Workers: 1,
-		FeasCheck: true, MergeReleases: true, Unwind: 300, MaxDepth: 200, MaxEnum: 16, MaxAlloc: 40000, MaxConfigs: 5_000_000,
+		FeasCheck: true, MergeReleases: true, Unwind: 300, MaxDepth: 200, MaxEnum: 16, AfterViolation: 30 * time.Second, MaxAlloc: 40000, MaxConfigs: 5_000_000,
 		intrinsics: map[string]Intrinsic{}, modelFns: map[string]*ssa.Function{}, atomicFns: map[string]bool{},
 		visibleFns: map[string]VisKind{},
 		objIDs:     &sync.Map{}, threadIDs: &sync.Map{}, threadKeyOf: &sync.Map{}, nObj: new(int), nThr: new(int), nFn: new(int), globals: map[*ssa.Global]ObjID{},
